@@ -67,6 +67,12 @@ CLAIMS = {
         technique="Coq proof by induction over the listing loop + in-Coq text correspondence + monitored execution of all formats",
         design="7/C12",
     ),
+    "C16": dict(
+        text="Machine-checked Coq proof over tables regenerated on every run from the AST of xdis/codetype (which attribute codeType2Portable reads as the line table, which class it builds per version from which attributes, what each constructor stores through its super().__init__ chain, what to_native() hands to types.CodeType and on which hosts) and from the installed interpreters (data attributes of a code object; attribute set by each constructor position): for every host 3.8-3.13 and EVERY valuation of the code attributes, portable-then-native gives the host's constructor, position by position, the value of the attribute that position sets (line table and exception table included); the class is the host's; replace() changes exactly the named attribute of a copy. Execution on all six hosts: every code object of generated sources and stdlib modules is converted and converted back, every data attribute compared (and ==), replace() checked for copy semantics and no shared mutable state; the model's predictions are compared with the real objects inside Coq.",
+        note="Trusted: Coq kernel; fail-closed AST translator tools/translate/codetype.py; the text signature of types.CodeType as the meaning of constructor positions; canonical hashing of values in the harness. deepcopy/freeze/check inside to_native() and CPython's constructor are covered by execution only. No axioms.",
+        technique="source-to-Coq translation + vm_compute obligations generic in the attribute valuation + execution on six hosts with in-Coq correspondence",
+        design="7/C16",
+    ),
     "C19": dict(
         text="Machine-checked Coq proofs of the round-trip law for the three freeze() encoders, for EVERY mapping with offsets strictly increasing from 0 and consecutive lines different, offset and line gaps unbounded (continuation entries are induction cases): findlinestarts(decode) of Code3/Code38's table (signed, any decreasing lines), of Code15/Code2's table (lines increasing; reads back under both the unsigned and the signed rule), and of Code310's range table (via co_lines()) returns the mapping. By the C05 theorems the decoders used are CPython's. Encoder models tied to /repo by in-Coq correspondence (dict and list inputs, boundary gaps); model-made tables are additionally decoded by the real 2.7, 3.6-3.10.",
         note="Trusted: Coq kernel; hand model coq/Model/Freeze.v (while-loops as closed forms) + correspondence harness; C05 decoder theorems and spec validation. Hypotheses stated in the theorems: offsets start at 0, lie inside co_code, consecutive lines differ; for 1.5-2.7 lines do not decrease. No axioms.",
